@@ -510,7 +510,7 @@ namespace avel {
         [[nodiscard]]
         AVEL_FINL friend mask operator!=(Vector lhs, Vector rhs) {
             #if defined(AVEL_AVX512VL) || defined(AVEL_AVX10_1)
-            return mask{_mm_cmp_ps_mask(decay(lhs), decay(rhs), _CMP_NEQ_OS)};
+            return mask{_mm_cmp_ps_mask(decay(lhs), decay(rhs), _CMP_NEQ_UQ)};
 
             #elif defined(AVEL_SSE2)
             return mask{_mm_cmpneq_ps(decay(lhs), decay(rhs))};
